@@ -31,7 +31,7 @@ def run_case(case, wall=8.0, max_steps=6000):
     items = case["items"]
     ctl = tc.Controller(TARGETS, first=case.get("first", 0), pre=case.get("pre", ()), wall=wall, max_steps=max_steps,
                         auto_clock=True)
-    run = {"timers": [], "sitems": [], "starts": [[] for _ in items], "disposed_at": [None] * len(items),
+    run = {"ticks": [], "p_returned": False, "timers": [], "sitems": [], "starts": [[] for _ in items], "disposed_at": [None] * len(items),
            "sched_at": [None] * len(items), "due": [None] * len(items), "excs": []}
     log = ctl.log
 
@@ -39,9 +39,15 @@ def run_case(case, wall=8.0, max_steps=6000):
         me = ctl.me()
         return me.idx if me is not None else -1
 
+    run["offset"] = 0  # scheduler clock = monotonic controller clock - offset (a wall clock that was stepped back)
+    run["timer_args"] = []
+
+    def sclock():
+        return ctl.clock - run["offset"]
+
     def now():
-        log.append(("now", tid(), ctl.clock))
-        return EPOCH + timedelta(seconds=ctl.clock)
+        log.append(("now", tid(), sclock()))
+        return EPOCH + timedelta(seconds=sclock())
 
     class CTimer:
         """threading.Timer (modelled, trusted): wait for the interval or cancellation, read `finished`, run."""
@@ -54,6 +60,7 @@ def run_case(case, wall=8.0, max_steps=6000):
             self.n = len(run["timers"])
             run["timers"].append(self)
             self.created = ctl.clock
+            run["timer_args"].append([run.get("cur_item"), float(interval)])
 
         def start(self):
             ctl.spawn(self.run, f"timer{self.n}")
@@ -125,14 +132,50 @@ def run_case(case, wall=8.0, max_steps=6000):
 
             def mk_action(i):
                 def action(scheduler, state=None):
-                    run["starts"][i].append({"clock": ctl.clock, "thread": tid()})
+                    run["starts"][i].append({"clock": sclock(), "thread": tid()})
                 return action
 
             def sleep_until(t):
                 ctl.wait_until(lambda: ctl.clock >= t, wake_at=t)
 
+            def delay_of(it):
+                if it.get("td") is not None:
+                    d, sec, us = it["td"]
+                    return timedelta(days=d, seconds=sec, microseconds=us)
+                return None
+
+            def periodic_user():
+                pc = case["periodic"]
+                costs = list(pc["costs"])
+
+                def tick(state):
+                    k = len(run["ticks"])
+                    # "the tick starts" = the thread's read of the `disposed` flag that let it through (DESIGN.md §8)
+                    me = tid()
+                    idx = max((j for j, e in enumerate(log) if e[0] == "EV" and e[1] == me and e[2] == "isset"), default=len(log))
+                    late = any(e[0] == "P" and e[1] == "returned" for e in log[:idx])
+                    run["ticks"].append({"clock": ctl.clock, "after_return": late})
+                    log.append(("P", "start", k))
+                    if late or k >= 10:
+                        raise tc.Abort()  # a tick after dispose() returned (recorded): stop the runaway loop
+                    cost = costs[k] if k < len(costs) else costs[-1]
+                    if cost:
+                        sleep_until(ctl.clock + cost)
+                    log.append(("P", "end", k))
+                    return (state or 0) + 1
+
+                d = sched.schedule_periodic(float(pc["period"]), tick, 0)
+                sleep_until(pc["disp"])
+                d.dispose()
+                run["p_returned"] = True
+                log.append(("P", "returned", -1))
+
             def user():
+                if case.get("type") == "periodic":
+                    return periodic_user()
                 timeline = []
+                if case.get("skew"):
+                    timeline.append((case["skew"]["at"], 2, "skew", -1))
                 for i, it in enumerate(items):
                     timeline.append((it.get("at", 0), 0, "sched", i))
                     if it.get("disp") is not None:
@@ -144,19 +187,26 @@ def run_case(case, wall=8.0, max_steps=6000):
                 nsched = 0
                 for t, _o, what, i in timeline:
                     sleep_until(t)
+                    if what == "skew":
+                        run["offset"] += case["skew"]["by"]
+                        log.append(("skew", run["offset"]))
+                        continue
                     it = items[i]
                     if what == "sched":
-                        run["sched_at"][i] = ctl.clock
+                        run["sched_at"][i] = sclock()
+                        run["cur_item"] = i
                         log.append(("U", i, "sched", tid()))
+                        td = delay_of(it)
+                        dly = td.total_seconds() if td is not None else it["delay"]
                         if it["how"] == "now":
-                            run["due"][i] = ctl.clock
+                            run["due"][i] = sclock()
                             disposables[i] = sched.schedule(mk_action(i))
                         elif it["how"] == "rel":
-                            run["due"][i] = ctl.clock + max(0, it["delay"])
-                            disposables[i] = sched.schedule_relative(float(it["delay"]), mk_action(i))
+                            run["due"][i] = sclock() + max(0, dly)
+                            disposables[i] = sched.schedule_relative(td if td is not None else float(it["delay"]), mk_action(i))
                         else:
-                            due = ctl.clock + it["delay"]
-                            run["due"][i] = max(due, ctl.clock)
+                            due = sclock() + dly
+                            run["due"][i] = max(due, sclock())
                             when = EPOCH + timedelta(seconds=due)
                             if it.get("tz") is not None:  # the same instant written in another UTC offset
                                 when = when.astimezone(timezone(timedelta(hours=it["tz"])))
@@ -167,9 +217,9 @@ def run_case(case, wall=8.0, max_steps=6000):
                             ctl.no_preempt = False
                     else:
                         disposables[i].dispose()
-                        run["disposed_at"][i] = ctl.clock
+                        run["disposed_at"][i] = sclock()
                 if kind == "eventloop":
-                    sleep_until(horizon + 1)
+                    sleep_until(horizon + 1 + run["offset"])
                     ctl.wait_until(lambda: all(run["starts"][i] or run["disposed_at"][i] is not None or False
                                                for i in range(len(items))) or True)
                     log.append(("U", -1, "end", tid()))
@@ -182,20 +232,36 @@ def run_case(case, wall=8.0, max_steps=6000):
     excs = [f"{t.idx}:{type(t.exc).__name__}:{t.exc}" for t in ctl.threads if t.exc is not None]
     return {"outcome": outcome, "log": [list(e) for e in log], "starts": run["starts"], "disposed_at": run["disposed_at"],
             "due": run["due"], "sched_at": run["sched_at"], "steps": ctl.steps, "choices": ctl.choices, "kinds": ctl.kinds,
-            "preempted": ctl.preempted, "excs": excs, "nthreads": len(ctl.threads)}
+            "preempted": ctl.preempted, "excs": excs, "nthreads": len(ctl.threads), "timer_args": run["timer_args"],
+            "ticks": run["ticks"], "p_returned": run["p_returned"]}
+
+
+def _delay(it):
+    if it.get("td") is not None:
+        d, sec, us = it["td"]
+        return timedelta(days=d, seconds=sec, microseconds=us).total_seconds()
+    return it["delay"]
 
 
 def project(case, r):
-    """single-item scenarios: observed events -> (model cfg, actions, labels) for `timer_replay`."""
+    """single-item scenarios: observed events -> (model cfg, actions, labels) for `timer_replay`.  The scheduler clock
+    is the controller clock minus the current skew."""
     it = case["items"][0]
     due = r["due"][0]
-    immediate = (it["how"] == "now") or (it["delay"] <= 0)
+    immediate = (it["how"] == "now") or (_delay(it) <= 0)
     evs = []
     ticked = immediate
+    clock, offset = 0, 0
+
+    def maybe_tick():
+        nonlocal ticked
+        if not ticked and due is not None and clock - offset >= due:
+            evs.append([2, "tick"]); ticked = True
+
     if case["sched"] == "timeout":
         for e in r["log"]:
-            if e[0] == "clock" and not ticked and due is not None and e[1] >= due:
-                evs.append([2, "tick"]); ticked = True
+            if e[0] == "clock":
+                clock = e[1]; maybe_tick()
             elif e[0] == "T" and e[1] == 0:
                 if e[2] == "dispose":
                     evs.append([1, "dispose"])
@@ -208,15 +274,16 @@ def project(case, r):
         if e[0] == "L" and e[2].startswith("check"):
             loop_tid = e[3]
     if loop_tid is None:
-        # the loop thread never reached the check (scheduler disposed first): take the first non-user thread reading the clock
         for e in r["log"]:
             if e[0] == "now" and e[1] not in (0, -1):
                 loop_tid = e[1]
                 break
     pc = 0
     for e in r["log"]:
-        if e[0] == "clock" and not ticked and due is not None and e[1] >= due:
-            evs.append([2, "tick"]); ticked = True
+        if e[0] == "clock":
+            clock = e[1]; maybe_tick()
+        elif e[0] == "skew":
+            offset = e[1]
         elif e[0] == "L" and e[1] == 0 and e[2] == "dispose":
             evs.append([1, "dispose"])
         elif e[0] == "now" and e[1] == loop_tid:
@@ -226,10 +293,45 @@ def project(case, r):
             elif pc == 3:
                 evs.append([0, "bottom-due" if isdue else "bottom-wait"]); pc = 0 if isdue else 4
         elif e[0] == "W" and e[1] == loop_tid and pc == 4:
-            evs.append([0, "timeout"]); pc = 0
+            if clock - offset >= due:
+                evs.append([0, "timeout"])
+            else:
+                evs.append([3, "timeout-early"])  # the wait ran out on the monotonic clock, the scheduler clock is behind
+            pc = 0
         elif e[0] == "L" and e[1] == 0 and e[2].startswith("check") and pc == 1:
             evs.append([0, e[2]]); pc = 5
     return {"kind": "evloop", "immediate": immediate}, evs
+
+
+def project_periodic(case, r):
+    """NewThread/ThreadPool schedule_periodic: observed events -> actions and labels for `periodic_replay`."""
+    ptid = None
+    for e in r["log"]:
+        if e[0] == "EV" and e[2] in ("wait", "isset"):
+            ptid = e[1]
+            break
+    seq = [e for e in r["log"] if (e[0] == "EV" and (e[1] == ptid or e[2] == "set")) or e[0] == "P"]
+    acts, labels = [], []
+    waited = False
+    for i, e in enumerate(seq):
+        if e[0] == "EV" and e[2] == "set":
+            acts.append(1); labels.append("dispose")
+        elif e[0] == "EV" and e[2] == "wait":
+            acts.append(0); labels.append("wait"); waited = True
+        elif e[0] == "EV" and e[2] == "waitret":
+            if not e[3]:
+                acts.append(2); labels.append("elapse")
+            acts.append(0); labels.append("waitret")
+        elif e[0] == "EV" and e[2] == "isset":
+            if not waited:
+                acts.append(0); labels.append("nowait")
+            waited = False
+            acts.append(0); labels.append("return" if e[3] else "tick-start")
+        elif e[0] == "P" and e[1] == "end":
+            nxt = next((x for x in seq[i + 1:] if x[0] == "EV" and x[1] == ptid), None)
+            slow = nxt is not None and nxt[2] == "isset"
+            acts.append(5 if slow else 4); labels.append("tick-end-slow" if slow else "tick-end")
+    return {"op": "periodic_replay", "period0": case["periodic"]["period"] == 0, "sched": acts}, labels
 
 
 def project_shared(case, r):
@@ -244,12 +346,18 @@ def project_shared(case, r):
             loop_tid = e[1]
             break
     acts, labels = [], []
+    clock, offset, skewed = 0, 0, False
     pc = 0  # 0 expecting top, 1 in the check loop, 2 after bottom (wait or next top)
     for e in r["log"]:
         if e[0] == "U" and e[2] == "end":
             break
-        if e[0] == "clock":
-            acts.append(["tick", int(e[1])]); labels.append(f"tick{int(e[1])}")
+        if e[0] == "clock" or e[0] == "skew":
+            if e[0] == "clock":
+                clock = e[1]
+            else:
+                offset = e[1]; skewed = True
+            t = max(0, int(clock - offset))
+            acts.append(["tick", t]); labels.append(f"tick{t}")
         elif e[0] == "L" and e[2] == "dispose":
             acts.append(["dispose", e[1]]); labels.append(f"dispose{e[1]}")
         elif e[0] == "L" and e[2].startswith("check"):
@@ -262,7 +370,8 @@ def project_shared(case, r):
                 acts.append(["loop"]); labels.append("top")
                 pc = 1
         elif e[0] == "W" and e[1] == loop_tid and pc == 2:
-            acts.append(["loop"]); labels.append("wake")
+            # after a step back of the scheduler clock the timed wait may run out before the head is due
+            acts.append(["earlyWake"] if skewed else ["loop"]); labels.append("wake")
             pc = 0
     if pc == 1:
         acts += [["loop"], ["loop"]]; labels += ["drained", "idle"]
